@@ -660,9 +660,12 @@ func (d *ColumnDetector) createColumnsFromGaps(fragments []text.TextFragment, ga
 	return columns
 }
 
-// validateColumns validates and cleans up detected columns
+// validateColumns validates and cleans up detected columns. A region narrower
+// than MinColumnWidth is not a column of its own (typically a word that sticks
+// out past the ragged right edge of the column next to it): its fragments are
+// merged into the nearest column of sufficient width, so that no text is lost.
 func (d *ColumnDetector) validateColumns(columns []Column) []Column {
-	var valid []Column
+	var valid, narrow []Column
 
 	for _, col := range columns {
 		// Skip empty columns
@@ -670,12 +673,41 @@ func (d *ColumnDetector) validateColumns(columns []Column) []Column {
 			continue
 		}
 
-		// Skip columns that are too narrow
+		// Columns that are too narrow are merged into a neighbour below
 		if col.BBox.Width < d.config.MinColumnWidth {
+			narrow = append(narrow, col)
 			continue
 		}
 
 		valid = append(valid, col)
+	}
+
+	for _, col := range narrow {
+		if len(valid) == 0 {
+			// No column of sufficient width: keep the content as a column
+			valid = append(valid, col)
+			continue
+		}
+
+		// Find the nearest valid column (horizontal distance between boxes)
+		best, bestDist := 0, 0.0
+		for i, v := range valid {
+			dist := 0.0
+			if col.BBox.X > v.BBox.X+v.BBox.Width {
+				dist = col.BBox.X - (v.BBox.X + v.BBox.Width)
+			} else if v.BBox.X > col.BBox.X+col.BBox.Width {
+				dist = v.BBox.X - (col.BBox.X + col.BBox.Width)
+			}
+			if i == 0 || dist < bestDist {
+				best, bestDist = i, dist
+			}
+		}
+
+		merged := make([]text.TextFragment, 0, len(valid[best].Fragments)+len(col.Fragments))
+		merged = append(merged, valid[best].Fragments...)
+		merged = append(merged, col.Fragments...)
+		valid[best].Fragments = merged
+		valid[best].BBox = fragmentsBBox(merged)
 	}
 
 	// Re-index columns
